@@ -8,7 +8,8 @@ and /verif), apply patch.diff, run the quick check of the property that caught
 it (taken from meta.json "check_cmd") with VERIF_REPO=<scratch>,
 and record the outcome in meta.json under "recheck". A patch that no longer
 applies to HEAD (a later fix: commit touched the same lines) is applied to a
-copy of its recorded base commit instead; that is noted in the record.
+copy of its recorded base commit instead, unless the directory holds a
+patch_head.diff (the same change ported by hand); either is noted in the record.
 """
 import json, os, re, shutil, subprocess, sys, tempfile, time, glob
 
@@ -32,6 +33,11 @@ def one(sd, budget):
         base = "HEAD"
         subprocess.check_call("git -C /repo archive HEAD | tar -x -C %s" % d, shell=True)
         patch = os.path.join(sd, "patch.diff")
+        if os.path.exists(os.path.join(sd, "patch_head.diff")):
+            # the same change ported by hand onto a later HEAD (a fix: commit
+            # touched the lines the original patch changes)
+            patch = os.path.join(sd, "patch_head.diff")
+            rec["ported_patch"] = True
         rc, out = sh("git init -q . 2>/dev/null; git apply --whitespace=nowarn %s" % patch, d)
         if rc != 0:
             rc, out = sh("patch -p1 -F3 --no-backup-if-mismatch < %s" % patch, d)
